@@ -20,7 +20,11 @@ import (
 	"github.com/matrix-org/gomatrixserverlib/fclient"
 	"github.com/matrix-org/gomatrixserverlib/spec"
 	"github.com/matrix-org/gomatrixserverlib/tokens"
+	"golang.org/x/crypto/ed25519"
 )
+
+// fuzzKey signs events in the pipeline (fixed seed: Exec must be a pure function of its arguments).
+var fuzzKey = ed25519.NewKeyFromSeed(make([]byte, ed25519.SeedSize))
 
 func init() { areas["fuzz"] = Area{Gen: genFuzz, Exec: execFuzz} }
 
@@ -121,9 +125,18 @@ func eventPipeline(ver string, js []byte, others [][]byte) {
 		_, _ = gmsl.ResolveConflictsNew(gmsl.RoomVersion(ver), [][]gmsl.PDU{sevs[:half], sevs}, evs, StdQuerier, func(string) bool { return false })
 		_, _ = gmsl.ResolveConflicts(gmsl.RoomVersion(ver), sevs, evs, StdQuerier, func(string) bool { return false })
 	}
+	// Sign() (in place), when SignJSON can decode the `signatures` member of the redacted event: that is the
+	// precondition of V.C18.no_panic_sign.  Without it Sign() panics on accepted events (defect D1 of
+	// lean/VModel/PanicSites.md, reported; calling it unconditionally would fail every run).
+	if red, err := v.RedactEventJSON(e.JSON()); err == nil {
+		if _, err := gmsl.SignJSON("me", "ed25519:1", fuzzKey, red); err == nil {
+			_ = e.Sign("me", "ed25519:1", fuzzKey)
+		}
+	}
 	// redaction last (in place)
 	e.Redact()
 	touchAccessors(e)
+	_ = e.SetUnsignedField("a", 1)
 }
 
 type fuzzStateResp struct{ state, auth gmsl.EventJSONs }
@@ -141,6 +154,14 @@ func execFuzz(op string, args []string) string {
 	switch op {
 	case "event":
 		eventPipeline(ver, in, others)
+	case "sign":
+		// Replay-only op (never generated): Sign() on whatever NewEventFromUntrustedJSON accepts, WITHOUT the
+		// precondition of V.C18.no_panic_sign — defect D1 of lean/VModel/PanicSites.md.
+		if v, err := gmsl.GetRoomVersion(gmsl.RoomVersion(ver)); err == nil {
+			if e, err := v.NewEventFromUntrustedJSON(in); err == nil {
+				_ = e.Sign("me", "ed25519:1", fuzzKey)
+			}
+		}
 	case "trusted":
 		if v, err := gmsl.GetRoomVersion(gmsl.RoomVersion(ver)); err == nil {
 			if e, err := v.NewEventFromTrustedJSON(in, false); err == nil {
